@@ -94,9 +94,14 @@ def reduced : Op
     | .ok v => some [ofStrs r.free, ofFlts v]
   | _ => none
 
-/-- `C09.reducedsens states consts inter outputs public mask values` -/
+def reqVal : Option (List String × List (SensParam String)) → List Val
+  | none => [.str "ok", .none, .none, .int 0]
+  | some (o, l) => [.str "ok", ofStrs o, ofStrs (l.map sensName), .int l.length]
+
+/-- `C09.reducedsens legacy states consts inter outputs public mask values`
+    → dependents | n, independents | n, number of sensitivity columns -/
 def reducedSens : Op
-  | [sv, cv, iv, ov, pubv, mv, vv] => do
+  | [.bool legacy, sv, cv, iv, ov, pubv, mv, vv] => do
     let d ← parseDecl sv cv iv
     let pub ← pubv.strs?
     let fixed ← parseFixed mv vv
@@ -104,9 +109,46 @@ def reducedSens : Op
     match ← withOutputs d ov with
     | .error e => some [errVal (errName e)]
     | .ok T =>
-      match r.enableSens T pub with
+      match r.enableSens legacy T pub with
       | .error e => some [errVal (errName e)]
-      | .ok (o, s) => some [.str "ok", ofStrs o, ofStrs (s.map sensName)]
+      | .ok q => some (reqVal q)
+  | _ => none
+
+/-- `C09.senshistory states consts inter public ops` with ops `[e given|n]`, `[d]`, `[o outs]`
+    → outputs, request of the solver a following `simulate` runs on -/
+def sensHistory : Op
+  | [sv, cv, iv, pubv, opsv] => do
+    let d ← parseDecl sv cv iv
+    let pub ← pubv.strs?
+    let ol ← opsv.list?
+    let ops ← ol.mapM (fun o => match o with
+      | .list [.str "e", g] => do some (SensOp.enable (← Val.opt? Val.strs? g))
+      | .list [.str "d"] => some SensOp.disable
+      | .list [.str "o", outs] => do some (SensOp.setOutputs (← outs.strs?))
+      | _ => none)
+    match sensRun d pub { tables := tablesOf d, request := none } ops with
+    | .error e => some [errVal (errName e)]
+    | .ok s => some (reqVal s.request ++ [ofStrs s.tables.outputNames])
+  | _ => none
+
+/-- `C09.redhistory states consts inter public ops` with ops `[e]`, `[d]`, `[f mask|n values]`,
+    `[o outs]` → request, has_sensitivities, free names -/
+def redHistory : Op
+  | [sv, cv, iv, pubv, opsv] => do
+    let d ← parseDecl sv cv iv
+    let pub ← pubv.strs?
+    let ol ← opsv.list?
+    let ops ← ol.mapM (fun o => match o with
+      | .list [.str "e"] => some (RedOp.enable : RedOp String Float)
+      | .list [.str "d"] => some RedOp.disable
+      | .list [.str "f", mv, vv] => do some (RedOp.fix (← parseFixed mv vv))
+      | .list [.str "o", outs] => do some (RedOp.setOutputs (← outs.strs?))
+      | _ => none)
+    match redRun d pub { tables := tablesOf d, fixed := none, sensOn := false, request := none } ops with
+    | .error e => some [errVal (errName e)]
+    | .ok s =>
+      let r : Reduced String Float := { names := pub, fixed := s.fixed }
+      some (reqVal s.request ++ [.bool s.sensOn, ofStrs r.free, ofStrs s.tables.outputNames])
   | _ => none
 
 /-- `C09.setoutputs states consts inter outputs` -/
@@ -119,8 +161,24 @@ def setOutputsOp : Op
     | .ok T => some [.str "ok", ofStrs T.outputNames, .int T.nOutputs]
   | _ => none
 
+/-- `C09.grid legacy states consts inter outputs params nTimes` → shape of the result of `simulate`
+    on a grid of `nTimes` points (the solver is irrelevant here: a constant stands in) -/
+def grid : Op
+  | [.bool legacy, sv, cv, iv, ov, pv, .int n] => do
+    let d ← parseDecl sv cv iv
+    let params ← pv.flts?
+    match ← withOutputs d ov with
+    | .error e => some [errVal (errName e)]
+    | .ok T =>
+      match simulateValues legacy (fun _ _ _ (_ : Nat) => (0.0 : Float)) (fun _ => 0.0) (fun _ => 0.0)
+          d T params (List.range n.toNat) with
+      | .error e => some [errVal (errName e)]
+      | .ok rows => some [.str "ok", .int rows.length, ofNats (rows.map List.length)]
+  | _ => none
+
 def ops : List (String × Op) :=
   [("C09.tables", tables), ("C09.simulate", simulate), ("C09.sens", sens),
-   ("C09.reduced", reduced), ("C09.reducedsens", reducedSens), ("C09.setoutputs", setOutputsOp)]
+   ("C09.reduced", reduced), ("C09.grid", grid), ("C09.reducedsens", reducedSens), ("C09.senshistory", sensHistory),
+   ("C09.redhistory", redHistory), ("C09.setoutputs", setOutputsOp)]
 
 end ChiDriver.C09
